@@ -60,6 +60,14 @@ class C03(spec.Spec):
                        ("ex_1", "C", "x"), ("dn", "AB", "x"), ("prov", "A", "x")]
                 strs = ["ex:x", "q:x", "ex_1:x", "dn:x", "x", "prov:x", "http://a/x", "http://a/b/x",
                         "http://b/x", "ex:a:b", "urn:x", "http://a/http://a/x"]
+            elif full == "wide":
+                # the full alphabet plus: a third URI for a clashing prefix (a prefix renamed twice), an alias later
+                # used for a new URI, a generated-looking prefix that is not the next in sequence, four default namespaces
+                decl = [("ex", "A"), ("ex", "B"), ("ex", "C"), ("q", "A"), ("q", "B"), ("ex_1", "C"), ("ex_2", "AB"),
+                        ("dn", "C"), ("dn_2", "AB")]
+                qns = [("ex", "A", "x"), ("ex", "B", "x"), ("ex", "C", "x"), ("", "A", "x"), ("", "B", "x"),
+                       ("", "C", "x"), ("", "AB", "x"), ("q", "B", "x")]
+                strs = ["ex:x", "q:x", "ex_1:x", "ex_2:x", "dn:x", "dn_2:x", "x"]
             elif full == "core":
                 decl = [("ex", "A"), ("ex", "B"), ("q", "A"), ("ex_1", "C"), ("dn", "C")]
                 qns = [("ex", "A", "x"), ("ex", "B", "x"), ("", "A", "x"), ("", "B", "x"), ("ex_1", "C", "x")]
@@ -257,9 +265,13 @@ def make_spec(tier, params):
 
 RUNS = {
     "quick": [("1scope-core", {"bundles": 0, "alphabet": "core"}, 12),
+              ("1scope-wide", {"bundles": 0, "alphabet": "wide"}, 5),
+              ("2scopes-wide", {"bundles": 1, "alphabet": "wide"}, 3),
               ("2scopes-full", {"bundles": 1, "alphabet": "full"}, 4),
               ("2scopes-core", {"bundles": 1, "alphabet": "core"}, 4)],
     "thorough": [("1scope-core", {"bundles": 0, "alphabet": "core"}, 12),
+                 ("1scope-wide", {"bundles": 0, "alphabet": "wide"}, 5),
+                 ("2scopes-wide", {"bundles": 1, "alphabet": "wide"}, 4),
                  ("1scope-full", {"bundles": 0, "alphabet": "full"}, 6),
                  ("2scopes-full", {"bundles": 1, "alphabet": "full"}, 4),
                  ("2scopes-core", {"bundles": 1, "alphabet": "core"}, 5),
